@@ -27,10 +27,10 @@ import (
 
 type Clause struct {
 	Props []string // non-empty: the clause belongs to these properties only
-	Text string
-	Expr ast.Expr
-	Line int
-	File string
+	Text  string
+	Expr  ast.Expr
+	Line  int
+	File  string
 }
 
 type LoopSpec struct {
@@ -39,7 +39,8 @@ type LoopSpec struct {
 }
 
 type UseSpec struct {
-	Where string // e.g. "loop1.body", "return", "call:WriteString#2", "exit", "entry"
+	Props []string // non-empty: only for these properties
+	Where string   // e.g. "loop1.body", "return", "call:WriteString#2", "exit", "entry"
 	Expr  ast.Expr
 	Text  string
 }
@@ -62,7 +63,7 @@ type Contract struct {
 	Impl     string // "Type.Method": this function (or closure) must satisfy that interface contract
 	Lets     []*UseSpec
 	Running  []*Clause // checked and then assumed after every statement of the body
-	Trusted  bool // contract assumed, body not verified (listed in evidence)
+	Trusted  bool      // contract assumed, body not verified (listed in evidence)
 	Pure     bool
 	File     string
 	Line     int
@@ -545,12 +546,19 @@ func (cs *ContractSet) parse(src, file, pkgPath string) {
 					continue
 				}
 				where := strings.TrimSpace(rest[:k])
+				var uprops []string
+				if strings.HasPrefix(where, "{") {
+					if q := strings.Index(where, "}"); q > 0 {
+						uprops = strings.FieldsFunc(where[1:q], func(r rune) bool { return r == ',' || r == ' ' })
+						where = strings.TrimSpace(where[q+1:])
+					}
+				}
 				e, err := parseSpecExpr(strings.TrimSpace(rest[k+1:]))
 				if err != nil {
 					cs.errf(file, rc.line, "%v", err)
 					continue
 				}
-				u := &UseSpec{Where: where, Expr: e, Text: strings.TrimSpace(rest[k+1:])}
+				u := &UseSpec{Props: uprops, Where: where, Expr: e, Text: strings.TrimSpace(rest[k+1:])}
 				if kw == "use" {
 					cur.Uses = append(cur.Uses, u)
 				} else {
